@@ -373,6 +373,25 @@ func (t *Teamserver) ListenerServiceExc2Add(Name, ExEndpoint string, client *ser
 	return nil
 }
 
+// ListenerServiceExc2Remove
+// removes every external c2 listener (and its endpoint) that has been started by the given service client.
+func (t *Teamserver) ListenerServiceExc2Remove(client *service.ClientService) {
+	var listeners []*Listener
+
+	for _, listener := range t.Listeners {
+		if ext, ok := listener.Config.(*handlers.External); ok && ext.Data != nil {
+			if c, ok := ext.Data["client"].(*service.ClientService); ok && c == client {
+				t.EndpointRemove(ext.Config.Endpoint)
+				continue
+			}
+		}
+
+		listeners = append(listeners, listener)
+	}
+
+	t.Listeners = listeners
+}
+
 // ListenerStartNotify
 // Notifies the clients of a new listener that is available to use.
 func (t *Teamserver) ListenerStartNotify(Listener map[string]any) {
